@@ -108,6 +108,11 @@ m("ino-filter-before-subevents", INO, """                if move_from.is_directo
                     self._event_filter is None or DirMovedEvent in self._event_filter
                 ):
                     for sub_moved_event in generate_sub_moved_events(src_path, dest_path):""", ["C11"])
+m("ino-decode-always-in-move", INO, """                src_path = self._decode_path(move_from.src_path)
+                dest_path = self._decode_path(move_to.src_path)""", """                src_path = os.fsdecode(move_from.src_path)
+                dest_path = os.fsdecode(move_to.src_path)""", ["C19"])
+m("ino-decode-replace-errors", INO, "        return path if isinstance(self.watch.path, bytes) else os.fsdecode(path)", "        return path if isinstance(self.watch.path, bytes) else path.decode('utf-8', 'replace')", ["C19"])
+m("poll-created-decoded", "src/watchdog/observers/polling.py", "                self.queue_event(FileCreatedEvent(src_path))", "                self.queue_event(FileCreatedEvent(os.fsdecode(src_path)))", ["C19"])
 
 
 def main():
